@@ -128,24 +128,61 @@ func genMkseq(rng *hx.Rng, n int, tier string, emit func(hx.Input)) {
 			in := (&hx.Nums{}).BoardIn(b)
 			var ops []uint64
 			var stack []seqFrame
+			// the walk runs on the implementation's own board: if an operation panics there, the case that
+			// led to it is emitted (with the operation in flight) before the panic travels on
+			var pending uint64
+			defer func() {
+				if e := recover(); e != nil {
+					if pending != 0 {
+						ops = append(ops, pending)
+					}
+					if len(ops) > 0 {
+						in.Int(len(ops)).U(ops...)
+						emit(hx.Input{In: in.String(), Desc: p.Desc() + " (the generator's walk panicked inside the implementation at the last operation)",
+							Tags: []string{"generator-panic"}, NonTrivial: true, Key: p.Desc() + "panic"})
+					}
+					panic(e)
+				}
+			}()
 			maxDepth := 1 + rng.Intn(40)
 			maxOps := 2 + rng.Intn(90)
+			// long lines (1.2 % of the cases): the property holds "at any nesting depth", and the hash history
+			// is a growing buffer: nest past 128 / 256 / 384 outstanding makes (a whole game played on one board
+			// and then taken back), backing up rarely; seeded change C03-G slid the history at 256 entries
+			long := rng.Chance(0.012)
+			if long {
+				maxDepth = []int{126, 130, 254, 258, 262, 300, 390}[rng.Intn(7)] + rng.Intn(4)
+				maxOps = maxDepth + 8 + rng.Intn(40)
+				tags["long-line"] = true
+			}
 			deepest := 0
 			for len(ops) < maxOps {
 				x := rng.Intn(100)
+				if long && len(stack) < maxDepth && x < 26 {
+					x = 26 + rng.Intn(74) // keep going down; a null move or a back-up only now and then
+					if rng.Chance(0.04) {
+						x = rng.Intn(26)
+					}
+				}
 				switch {
 				case x < 18 && len(stack) > 0:
 					// back up
 					f := stack[len(stack)-1]
 					stack = stack[:len(stack)-1]
 					if f.null {
+						pending = opPop
 						b.UndoNullMove(f.r)
+						pending = 0
 					} else {
+						pending = opPop
 						b.UndoMove(f.m, f.r)
+						pending = 0
 					}
 					ops = append(ops, opPop)
 				case x < 26 && len(stack) < maxDepth && !b.InCheck(b.STM):
+					pending = opNull
 					stack = append(stack, seqFrame{null: true, r: b.MakeNullMove()})
+					pending = 0
 					ops = append(ops, opNull)
 					tags["null"] = true
 				case len(stack) < maxDepth:
@@ -186,14 +223,18 @@ func genMkseq(rng *hx.Rng, n int, tier string, emit func(hx.Input)) {
 						tags["capture"] = true
 					}
 					me := b.STM
+					pending = uint64(m)
 					r := b.MakeMove(m)
+					pending = 0
 					ops = append(ops, uint64(m))
 					if b.EnPassant != 0 {
 						tags["sets-ep"] = true
 					}
 					if b.InCheck(me) {
 						// pseudo-legal but illegal: the search undoes it immediately
+						pending = opPop
 						b.UndoMove(m, r)
+						pending = 0
 						ops = append(ops, opPop)
 						tags["illegal-made-undone"] = true
 					} else {
@@ -208,9 +249,13 @@ func genMkseq(rng *hx.Rng, n int, tier string, emit func(hx.Input)) {
 					f := stack[len(stack)-1]
 					stack = stack[:len(stack)-1]
 					if f.null {
+						pending = opPop
 						b.UndoNullMove(f.r)
+						pending = 0
 					} else {
+						pending = opPop
 						b.UndoMove(f.m, f.r)
+						pending = 0
 					}
 					ops = append(ops, opPop)
 				}
@@ -246,8 +291,14 @@ func genMkseq(rng *hx.Rng, n int, tier string, emit func(hx.Input)) {
 				tl = append(tl, "depth<=3")
 			case deepest <= 12:
 				tl = append(tl, "depth<=12")
-			default:
+			case deepest <= 40:
 				tl = append(tl, "depth>12")
+			case deepest <= 128:
+				tl = append(tl, "depth>40")
+			case deepest <= 256:
+				tl = append(tl, "depth>128")
+			default:
+				tl = append(tl, "depth>256")
 			}
 			emit(hx.Input{In: in.String(), Desc: sb.String(), Tags: tl, NonTrivial: true, Key: b.FEN() + sb.String()})
 			cnt++
